@@ -89,7 +89,7 @@ theorem tx_closed (u : UP) (ex : Option Nat) : TClosed u (Tx ex) where
     split
     · exact ⟨snoc_F _ (k_init _ _) h.1, fun _ _ hm => absurd hm (by simp)⟩
     · exact h
-  bump := fun _ _ _ _ h => h
+  bump := fun _ _ _ _ _ h => h
   inval := fun _ _ h => h
 
 /-! ### the consumer side -/
